@@ -83,6 +83,10 @@ def instances(pid, n=30):
             lines = [l for l in lines if l != '``'] or ['y']
             out.append(('``\n' + '\n'.join(lines) + '\n``\n\n' + line, 0,
                         '<pre><code>%s</code></pre>\n<p>%s</p>' % (esc('\n'.join(lines)), esc(line)), 'theorem-instance:C08_code_then_paragraph'))
+        elif pid == 'C12':     # C12_class_paragraph_document
+            name = rng.choice(LETTERS) + text(rng, LETTERS + '0123456789-', 0, 8)
+            line = first_then(rng, 0, 14).rstrip() or 'x'
+            out.append(('.%s\n%s' % (name, line), '<p class="%s">%s</p>' % (name, esc(line)), 'theorem-instance:C12_class_paragraph_document'))
         elif pid == 'C17':     # C17_escaped_emphasis_is_literal, in a paragraph
             pre, body, post = first_then(rng, 0, 10), solid(rng, SAFE, 1, 12), text(rng, SAFE, 0, 10)
             src = pre + '\\*' + body + '*' + post
